@@ -8,8 +8,8 @@ From Aelys Require Import Base.Tactics Model.Gc Model.GcRoots Proofs.GcProofs Pr
 Local Open Scope N_scope.
 
 Definition kf3_vm : vm :=
-  (mkVm [Some 142;None;Some 139;None;Some 136;Some 137;None] [mkFrame 0 4 140 None;
-    mkFrame 3 4 143 (Some 145)] [0;1;2;3;4;5;6;7;8;9;10;11;12;13;14;15;16;17;18;19;20;21;22;23;24;25;26;
+  (mkVm [Some 142;None;Some 139;None;Some 136;Some 137;None] [mkFrame 0 4 140 None 4;
+    mkFrame 3 4 143 (Some 145) 4] [0;1;2;3;4;5;6;7;8;9;10;11;12;13;14;15;16;17;18;19;20;21;22;23;24;25;26;
     27;28;29;30;31;32;33;34;35;36;37;38;39;40;41;41;42;42;43;43;44;44;45;45;46;46;47;47;48;48;49;49;50;
     50;51;51;52;52;53;53;54;54;55;55;56;56;57;57;58;58;59;59;60;60;61;61;62;62;63;63;64;64;65;65;66;66;
     67;67;68;68;69;69;70;70;71;71;72;72;73;73;74;74;75;75;76;76;77;77;78;78;79;79;80;80;81;81;82;82;83;
@@ -105,7 +105,7 @@ Proof. vm_compute. reflexivity. Qed.
 Lemma kf3_program_reachable : program_reachable kf3_vm kf3_heap 145.
 Proof.
   exists 145. split.
-  - apply (hr_running_closure kf3_vm (mkFrame 3 4 143 (Some 145)) 145); [|reflexivity].
+  - apply (hr_running_closure kf3_vm (mkFrame 3 4 143 (Some 145) 4) 145); [|reflexivity].
     cbn. right. left. reflexivity.
   - apply (reach_root edges_spec kf3_heap [145] 145 kf3_closure); [left; reflexivity|exact kf3_get].
 Qed.
